@@ -17,7 +17,7 @@ EXPORTS = ("MC_AgonesExport.cfg", "MC_AgonesExportFaults.cfg")
 TIERS = {
     # exhaustive cfg, workers, simulate num (per worker), histories replayed, harness threads
     "quick": dict(mc=["MC_AgonesQuick.cfg"], workers=4, sim="num=250", depth=100, histories=64, threads=48),
-    "thorough": dict(mc=["MC_AgonesFull.cfg", "MC_AgonesFull2.cfg"], workers=6, sim="num=1500", depth=100, histories=600, threads=40),
+    "thorough": dict(mc=["MC_AgonesFull.cfg", "MC_AgonesFull2.cfg"], workers=6, sim="num=1500", depth=100, histories=600, threads=20),
 }
 
 
